@@ -72,6 +72,49 @@ func c08Pool() *c08Pools {
 			c08P.inputs = append(c08P.inputs, p.Bytes())
 			c08P.names = append(c08P.names, fmt.Sprintf("model#%d", k))
 		}
+		// Families of near-duplicate inputs: the same stream with one timestamp / local timestamp /
+		// scalar moved by a few units. State kept between calls under a coarse key (a cache, a memo)
+		// shows when two members of a family meet in one history.
+		for k := uint64(0); k < 6; k++ {
+			rng := lib.NewRand("C08.pool.near", k)
+			fts := []byte{32, 15, 4, 7, 32, 4}
+			base := c12Plan(rng, uint64(map[byte]int{4: 0, 32: 2, 15: 3, 7: 4}[fts[k]]))
+			for v := 0; v < 5; v++ {
+				p := *base
+				p.Records = append([]ref.Record(nil), base.Records...)
+				delta := []uint64{0, 1, 10, 30, 59}[v]
+				// move every 4-byte time field of every data record by delta seconds
+				var defs [16]*ref.Record
+				prof := lib.Profile()
+				for i := range p.Records {
+					r := &p.Records[i]
+					if r.IsDef {
+						defs[r.Local] = r
+						continue
+					}
+					d := defs[r.Local]
+					if d == nil || !prof.Known[d.Global] {
+						continue
+					}
+					nd := make([][]byte, len(r.Data))
+					copy(nd, r.Data)
+					for fi, f := range d.Fields {
+						pf := prof.Field(d.Global, f.Num)
+						if pf != nil && pf.Kind == ref.KTimeLocal && f.Size == 4 && fi < len(nd) {
+							val := ref.Get(nd[fi], 4, d.Arch)
+							if val != 0xFFFFFFFF && val+delta < 0xFFFFFFF0 {
+								b := make([]byte, 4)
+								ref.Put(b, val+delta, 4, d.Arch)
+								nd[fi] = b
+							}
+						}
+					}
+					r.Data = nd
+				}
+				c08P.inputs = append(c08P.inputs, p.Bytes())
+				c08P.names = append(c08P.names, fmt.Sprintf("near#%d+%ds", k, delta))
+			}
+		}
 		// chains of accepted inputs
 		rng := lib.NewRand("C08.pool.chains", 0)
 		for k := 0; k < 4; k++ {
@@ -311,6 +354,22 @@ func c08History(h uint64) []string {
 	var favourites []string
 	for i := 0; i < 12; i++ {
 		favourites = append(favourites, c08RandomCall(rng))
+	}
+	// two members of one near-duplicate family, so that they meet in this history
+	p := c08Pool()
+	if nnear := 30; len(p.inputs) >= nnear {
+		first := -1
+		for i, nm := range p.names {
+			if strings.HasPrefix(nm, "near#") {
+				first = i
+				break
+			}
+		}
+		if first >= 0 {
+			fam := rng.Intn(6)
+			a, b := rng.Intn(5), rng.Intn(5)
+			favourites = append(favourites, fmt.Sprintf("D:%d:0", first+fam*5+a), fmt.Sprintf("D:%d:0", first+fam*5+b), fmt.Sprintf("ED:%d:%d", first+fam*5+b, rng.Intn(2)))
+		}
 	}
 	for i := 0; i < n; i++ {
 		if rng.Chance(2, 3) {
